@@ -399,10 +399,16 @@ def _symmetric_matrix_function_jvp_helper(func, relative_difference, primals, ta
 
     return sol
 
+def _sqrt_psd(lam):
+    # A zero eigenvalue of a positive semi-definite tensor can come out as
+    # -O(eps)*max|lam|: treat those (and only those) as zero.
+    tol = 64*np.finfo(np.dtype("float64")).eps*np.max(np.abs(lam))
+    return Math.safe_sqrt(np.where((lam < 0) & (lam >= -tol), 0.0, lam))
+
 @jax.custom_jvp
 def sqrt_symm(A):
     """Square root of a symmetric positive semi-definite tensor."""
-    return symmetric_matrix_function(A, Math.safe_sqrt)
+    return symmetric_matrix_function(A, _sqrt_psd)
 
 def _sqrt_relative_difference(lam1, lam2):
     return 1/(np.sqrt(lam1) + np.sqrt(lam2))
